@@ -119,7 +119,7 @@ def cases(tier, seed):
             if 'connected' in fn and not connected_und(S): continue
             if q and s == 'P4' and fn == 'latmio_und': continue
             for t, p in enumerate(_perms(4, seed, np_ if s == '2K2' else (2 if q else 8))):
-                extra = dict(draws=1 + 4 * 4, fork_int=True, shard_depth=24) if (q and len(U4[s]) >= 3) else dict(shard_depth=10 if len(U4[s]) >= 3 else None, fork_int=len(U4[s]) >= 3)
+                extra = dict(draws=1 + 4 * 3, fork_int=True, shard_depth=24) if (q and len(U4[s]) >= 3) else dict(shard_depth=10 if len(U4[s]) >= 3 else None, fork_int=len(U4[s]) >= 3)
                 add(fn=fn, kind='latmio', n=4, sup=s, support=S, iters=1, weight=40 * len(U4[s]), perm=p, name='%s/%s/perm%s' % (fn, s, ''.join(map(str, p))), **extra)
     for fn in ('latmio_dir', 'latmio_dir_connected'):
         for s in (['2arcs', 'ring4'] if q else ['2arcs', '3arcs_fan', 'ring4', 'recip2']):
